@@ -458,7 +458,8 @@ namespace ipr {
                case '\1':
                case '\2':
                case '\3':
-                  pp << "\\0" << std::oct << static_cast<int>(*cur);
+                  // Do not disturb the formatting state of the stream.
+                  pp << "\\0" << static_cast<char>('0' + *cur);
                   break;
                }
       }
